@@ -38,7 +38,11 @@ RULE = (
     "BooleanImage) and image shapes; angles and factors are handed over as python floats, python ints, numpy "
     "integer scalars, float32 / float64 scalars (arrays for factors), with degrees= spelled out or left to its "
     "documented default; a case is non-trivial when the angle is not a multiple of 90 degrees / the factors are "
-    "not all 1 / the object is not centred at the origin; distinct = distinct canonical-JSON digest of the case"
+    "not all 1 / the object is not centred at the origin; distinct = distinct canonical-JSON digest of the case. "
+    "Histories (clause readout_history): a transform from any constructor on the path, then 1-3 changes through a public "
+    "route (composition with a drawn transform, in place or not, from_vector[_inplace], set_rotation_matrix, "
+    "set_h_matrix, copy, pseudoinverse) with drawn derived queries before each change; non-trivial when a derived "
+    "query preceded a change that took effect"
 )
 ASSUMPTIONS = [
     "3-D axis-angle clause keeps the rotation angle in [0.01, pi-0.01] rad as the property excludes identity and half-turns",
@@ -51,6 +55,19 @@ ASSUMPTIONS = [
     "centre references: mean of the points for shapes, shape/2 for images (what the centre() docstrings state)",
     "the thin-plate-spline fallback case compares against an identically built spline applied on its own (the "
     "composition about the centre is what is checked); the closed-form CubicField case is fully independent",
+    "readout_history: the matrix the object holds is checked against a numpy product / inverse of the reference "
+    "matrices, then every derived read-out (axis/angle, quaternion / parameter vector, decompose, pseudoinverse, "
+    "linear/translation component, apply, str) against THAT matrix by the same convention oracles as the single-shot "
+    "clauses and against a fresh object of the same class built from a copy of the matrix; in-place composition is "
+    "expected to be accepted exactly for the classes each composes_inplace_with docstring names",
+    "readout_history, 2-D axis/angle: the open known finding (sign lost when sin < 0) is reported by clause "
+    "axis_angle_2d only; here a reported +|theta| for such a matrix is accepted as long as it is the |theta| of the "
+    "CURRENT matrix. A cosine entry pushed beyond 1 by round-off of a composition (rot(a) o rot(-a)) makes arccos "
+    "return nan: recorded as an event, not asserted (candidate defect, reported)",
+    "readout_history, 3-D axis/angle: reconstruction asserted when the current rotation angle is in [0.01, pi-0.01]; "
+    "outside (identity, half turns: excluded by the property) only None-ness is compared with the fresh object; str() "
+    "is compared with the fresh object's in 2-D and for scales / translations only (the 3-D angle has run-to-run "
+    "round-off jitter from a random helper vector)",
 ]
 
 
@@ -807,6 +824,501 @@ def c_tcoords(case, ctx):
     ctx.expect(np.array_equal(ttm.tcoords.points, p), "tcoords.textured_mesh_tcoords_mutated", lambda: describe(ttm.tcoords.points, p))
 
 
+# ------------------------------------------------------------------------------------------ 7
+# Derived read-outs after the object changed through a public route.  A short history
+#   [read-out]* , change , [read-out]* , change , ...
+# on every constructor / class of the property's path.  After each change every derived public query of the resulting
+# object must describe the matrix the object NOW holds (by the property's own convention oracles) and agree with a
+# freshly constructed object holding the same matrix; the operands of the change must be left as they were.
+HIST_KINDS_2D = ["rot_angle", "rot_angle", "rot_mat", "sim", "aff", "shear", "uscale", "nuscale", "trans"]
+HIST_KINDS_3D = ["rot_axis", "rot_axis", "rot_mat", "rot_mat", "rot_quat", "sim", "aff", "uscale", "nuscale", "trans"]
+HIST_OPS = ["compose_before", "compose_after", "compose_before", "compose_after", "compose_before_inplace",
+            "compose_after_inplace", "from_vector", "from_vector_inplace", "set_rotation_matrix", "set_h_matrix",
+            "copy", "pseudoinverse"]
+HIST_READOUTS = ["axis_angle", "str", "as_vector", "decompose", "pseudoinverse", "apply", "n_parameters"]
+# documented composes_inplace_with of every class on the path (class -> classes it swallows in place)
+INPLACE_WITH = {
+    Rotation: (Rotation,),
+    Translation: (Translation,),
+    UniformScale: (UniformScale,),
+    NonUniformScale: (NonUniformScale, UniformScale),
+    Similarity: (Similarity,),
+    Affine: (Affine,),
+    Homogeneous: (Homogeneous,),
+}
+
+
+def _s_hist_spec(d, same_family_as=None):
+    @st.composite
+    def s(draw):
+        kinds = HIST_KINDS_2D if d == 2 else HIST_KINDS_3D
+        if same_family_as is not None and draw(st.booleans()):
+            # the same family as the subject (a rotation for a rotation ...): the in-place composition paths
+            fam = same_family_as.split("_")[0]
+            kinds = [k for k in kinds if k.split("_")[0] == fam]
+        kind = draw(st.sampled_from(kinds))
+        spec = {"kind": kind}
+        if kind in ("rot_angle", "rot_axis") or (kind in ("rot_mat", "sim") and d == 2):
+            spec["deg"] = draw(gen.angle_deg())
+            spec["degrees"] = draw(st.booleans())
+        if kind == "rot_axis":
+            spec["about"] = draw(st.sampled_from(["x", "y", "z"]))
+        if kind == "rot_mat" and d == 3:
+            spec["axis"] = draw(st.lists(gen.q(-1, 1), min_size=3, max_size=3).filter(
+                lambda v: sum(x * x for x in v) > 0.05))
+            spec["angle"] = draw(gen.qnz(-math.pi + 0.01, math.pi - 0.01, 0.01))
+        if kind == "rot_quat" or (kind == "sim" and d == 3):
+            spec["q"] = draw(gen.unit_quaternion_case())
+        if kind in ("sim", "uscale"):
+            spec["s"] = draw(gen.qnz(-4, 4, 0.25))
+        if kind == "nuscale":
+            spec["sv"] = draw(st.lists(gen.qnz(-4, 4, 0.25), min_size=d, max_size=d))
+            if len(set(spec["sv"])) == 1:
+                spec["sv"][0] = spec["sv"][0] * 1.5
+        if kind in ("sim", "aff", "trans"):
+            spec["t"] = draw(gen.vec(d))
+        if kind == "aff":
+            spec["lin"] = draw(gen.linear_case(d))
+        if kind == "shear":
+            spec["phi"] = draw(gen.qnz(-60, 60, 0.25, 16))
+            spec["psi"] = draw(gen.qnz(-59, 59, 0.25, 20))
+        return spec
+
+    return s()
+
+
+def _s_hist_target(d):
+    """ingredients of the new state a from_vector / set_rotation_matrix step asks for (used by the current class)"""
+    return st.fixed_dictionaries({
+        "q": gen.unit_quaternion_case(),
+        "deg": gen.angle_deg(),
+        "s": gen.qnz(-4, 4, 0.25),
+        "sv": st.lists(gen.qnz(-4, 4, 0.25), min_size=d, max_size=d),
+        "t": gen.vec(d),
+        "lin": gen.linear_case(d),
+    })
+
+
+def s_history():
+    @st.composite
+    def s(draw):
+        d = draw(st.integers(2, 3))
+        subject = draw(_s_hist_spec(d))
+        n_steps = draw(st.integers(1, 3))
+        steps = []
+        for _ in range(n_steps):
+            op = draw(st.sampled_from(HIST_OPS))
+            step = {"op": op,
+                    # derived queries made on the object right before the change (a full check of the object, which
+                    # makes every query, when `check_before` is drawn)
+                    "touch": draw(st.lists(st.sampled_from(HIST_READOUTS), max_size=3, unique=True)),
+                    "check_before": draw(st.booleans())}
+            if op.startswith("compose"):
+                step["other"] = draw(_s_hist_spec(d, same_family_as=subject["kind"]))
+                step["touch_other"] = draw(st.lists(st.sampled_from(HIST_READOUTS), max_size=2, unique=True))
+            if op in ("from_vector", "from_vector_inplace", "set_rotation_matrix", "set_h_matrix"):
+                step["target"] = draw(_s_hist_target(d))
+            steps.append(step)
+        return {"d": d, "subject": subject, "steps": steps}
+
+    return s()
+
+
+def _h_from(lin, t=None):
+    d = lin.shape[0]
+    h = np.eye(d + 1)
+    h[:d, :d] = lin
+    if t is not None:
+        h[:d, d] = t
+    return h
+
+
+def _hist_build(spec, d):
+    """(a menpo transform built through the public constructor the kind names, the matrix it must hold)"""
+    kind = spec["kind"]
+    if kind in ("rot_angle", "rot_axis"):
+        degrees = spec["degrees"]
+        th = math.radians(spec["deg"])
+        arg = spec["deg"] if degrees else th
+        if kind == "rot_angle":
+            return Rotation.init_from_2d_ccw_angle(arg, degrees=degrees), _h_from(rot2(th))
+        f = getattr(Rotation, "init_from_3d_ccw_angle_around_" + spec["about"])
+        return f(arg, degrees=degrees), _h_from(rodrigues(np.eye(3)["xyz".index(spec["about"])], th))
+    if kind == "rot_mat":
+        m = rot2(math.radians(spec["deg"])) if d == 2 else rodrigues(spec["axis"], spec["angle"])
+        return Rotation(m.copy()), _h_from(m)
+    if kind == "rot_quat":
+        qv = gen.build_unit_quaternion(spec["q"])
+        return Rotation.init_3d_from_quaternion(qv.copy()), _h_from(quat_matrix(qv))
+    if kind == "sim":
+        r = rot2(math.radians(spec["deg"])) if d == 2 else quat_matrix(gen.build_unit_quaternion(spec["q"]))
+        h = _h_from(spec["s"] * r, spec["t"])
+        return Similarity(h.copy()), h
+    if kind == "aff":
+        h = _h_from(gen.build_linear(d, spec["lin"]), spec["t"])
+        return Affine(h.copy()), h
+    if kind == "shear":
+        phi, psi = math.radians(spec["phi"]), math.radians(spec["psi"])
+        return (Affine.init_from_2d_shear(spec["phi"], spec["psi"]),
+                _h_from(np.array([[1.0, math.tan(phi)], [math.tan(psi), 1.0]])))
+    if kind == "uscale":
+        return Scale(spec["s"], n_dims=d), _h_from(np.eye(d) * spec["s"])
+    if kind == "nuscale":
+        return Scale(np.array(spec["sv"])), _h_from(np.diag(spec["sv"]))
+    return Translation(np.array(spec["t"], dtype=float)), _h_from(np.eye(d), spec["t"])
+
+
+def _hist_fresh(obj, h):
+    """a freshly constructed object of the same class holding a copy of the same matrix (None: class not on the path)"""
+    d = h.shape[0] - 1
+    cls = type(obj)
+    if cls is Rotation:
+        return Rotation(h[:d, :d].copy())
+    if cls is UniformScale:
+        return UniformScale(float(h[0, 0]), d)
+    if cls is NonUniformScale:
+        return NonUniformScale(np.diag(h)[:d].copy())
+    if cls is Translation:
+        return Translation(h[:d, d].copy())
+    if cls in (Similarity, Affine, Homogeneous):
+        return cls(h.copy())
+    return None
+
+
+def _hist_touch(obj, names):
+    for name in names:
+        if name == "axis_angle":
+            if isinstance(obj, Rotation):
+                obj.axis_and_angle_of_rotation()
+        elif name == "str":
+            str(obj)
+        elif name in ("as_vector", "n_parameters"):
+            try:
+                obj.as_vector() if name == "as_vector" else obj.n_parameters
+            except NotImplementedError:
+                pass  # documented: 2-D rotations and 3-D similarities are not vectorizable
+        elif name == "decompose":
+            if isinstance(obj, Affine):
+                obj.decompose()
+        elif name == "pseudoinverse":
+            obj.pseudoinverse()
+        elif name == "apply":
+            obj.apply(np.ones((1, obj.n_dims)))
+
+
+def _expected_vector(obj, h):
+    """the parameter vector the class documents for the matrix h (None: documented NotImplementedError)"""
+    d = h.shape[0] - 1
+    if isinstance(obj, Rotation):
+        return None if d == 2 else "quaternion"
+    if isinstance(obj, UniformScale):
+        return np.array([h[0, 0]])
+    if isinstance(obj, NonUniformScale):
+        return np.diag(h)[:d].copy()
+    if isinstance(obj, Translation):
+        return h[:d, d].copy()
+    if isinstance(obj, Similarity):
+        return None if d == 3 else np.array([h[0, 0] - 1, h[1, 0], h[0, 2], h[1, 2]])
+    if isinstance(obj, Affine):
+        return (h - np.eye(d + 1))[:d, :].ravel(order="F")
+    return h.ravel()
+
+
+def _axis_angle_ok(ctx, obj, h, sig, who):
+    """axis / angle reported by a Rotation must reconstruct the matrix it holds now (property's convention oracles).
+    Returns a comparable summary (None-ness, reconstruction) for the fresh-object comparison."""
+    d = h.shape[0] - 1
+    m = h[:d, :d]
+    axis, ang = obj.axis_and_angle_of_rotation()
+    if d == 2:
+        ok_axis = axis is not None and np.asarray(axis).shape == (3,) and close(axis, [0, 0, 1], atol=1e-12)
+        ctx.expect(ok_axis, sig("axis_angle_2d.axis"), lambda: "%s: %r" % (who, axis))
+        ang = float(ang)
+        if abs(m[0, 0]) > 1.0:
+            # cosine beyond 1 by round-off of a composition: arccos has no value there; recorded, not asserted
+            ctx.event("history: 2-D cosine beyond 1 by round-off (angle %r)" % ("nan" if ang != ang else "finite"))
+            return ("2d", None)
+        if not ctx.expect(np.isfinite(ang), sig("axis_angle_2d.finite"), lambda: "%s: %r" % (who, ang)):
+            return ("2d", None)
+        if not close(rot2(ang), m, atol=1e-7):
+            if m[1, 0] < 0 and close(rot2(-ang), m, atol=1e-7):
+                # the open known finding (clause axis_angle_2d, negative_angle_sign_lost): +|theta| for sin < 0.
+                # It is reported there; here the magnitude must still be the one of the CURRENT matrix
+                ctx.event("history: 2-D angle sign lost (known finding), magnitude current")
+            else:
+                ctx.fail(sig("axis_angle_2d.not_of_current_matrix"),
+                         "%s: holds\n%r\nreports angle %+.6f rad" % (who, m, ang))
+        return ("2d", ang)
+    cosang = max(-1.0, min(1.0, (m[0, 0] + m[1, 1] + m[2, 2] - 1.0) / 2.0))
+    true_ang = math.acos(cosang)
+    if axis is None or ang is None:
+        if 0.01 <= true_ang <= math.pi - 0.01 and close(m.dot(m.T), np.eye(3), atol=1e-9) and np.linalg.det(m) > 0:
+            ctx.fail(sig("axis_angle_3d.none"), "%s: proper rotation by %.4f rad reports None" % (who, true_ang))
+        return ("3d", None, False)
+    axis = np.asarray(axis, dtype=float)
+    back = rodrigues(axis, float(ang))
+    in_range = 0.01 <= true_ang <= math.pi - 0.01 and np.linalg.det(m) > 0
+    if in_range:
+        ctx.expect(close(np.linalg.norm(axis), 1.0, atol=1e-9), sig("axis_angle_3d.unit_axis"), lambda: repr(axis))
+        ctx.expect(close(back, m, atol=1e-6), sig("axis_angle_3d.not_of_current_matrix"),
+                   lambda: "%s: holds\n%r\nreports axis %r angle %+.6f rad, which is\n%r" % (who, m, axis, ang, back))
+    # (outside the range - identity, half turns, which the property excludes - the angle may even be nan: not compared)
+    return ("3d", back, in_range)
+
+
+def _hist_check(ctx, obj, ref_h, after, who, fresh=True):
+    """every derived read-out of obj against the matrix it holds; the matrix against the numpy reference ref_h"""
+    sig = lambda name: "history.%s.after_%s" % (name, after)  # noqa: E731
+    d = ref_h.shape[0] - 1
+    h = np.array(obj.h_matrix, dtype=float)
+    mag = max(1.0, float(np.abs(ref_h).max()))
+    if not ctx.expect(h.shape == ref_h.shape and close(h, ref_h, atol=1e-9 * mag), sig("h_matrix"),
+                      lambda: "%s (%s)\n%s" % (who, type(obj).__name__, describe(h, ref_h))):
+        return
+    ctx.expect(obj.n_dims == d, sig("n_dims"), lambda: repr(obj.n_dims))
+    ctx.expect(obj.has_true_inverse is True, sig("has_true_inverse"), lambda: repr(obj.has_true_inverse))
+    p = np.array([[1.0, -2.0, 0.5][:d], [0.25, 3.0, -4.0][:d], [0.0, 0.0, 0.0][:d]])
+    wantp = p.dot(h[:d, :d].T) + h[:d, d][None]
+    ctx.expect(close(obj.apply(p), wantp, atol=1e-9 * mag * 10), sig("apply"), lambda: describe(obj.apply(p), wantp))
+    if isinstance(obj, Affine):
+        ctx.expect(np.array_equal(obj.linear_component, h[:d, :d]), sig("linear_component"),
+                   lambda: describe(obj.linear_component, h[:d, :d]))
+        ctx.expect(np.array_equal(obj.translation_component, h[:d, d]), sig("translation_component"),
+                   lambda: describe(obj.translation_component, h[:d, d]))
+    # pseudoinverse: a true inverse of the current matrix, of the same class
+    inv = obj.pseudoinverse()
+    hi = np.array(inv.h_matrix, dtype=float)
+    imag = max(1.0, float(np.abs(hi).max()))
+    ctx.expect(close(hi.dot(h), np.eye(d + 1), atol=1e-9 * mag * imag), sig("pseudoinverse"),
+               lambda: "%s\n%s" % (who, describe(hi.dot(h), np.eye(d + 1))))
+    ctx.expect(type(inv) is type(obj), sig("pseudoinverse.class"), lambda: "%s -> %s" % (type(obj).__name__, type(inv).__name__))
+    # parameter vector
+    want_v = _expected_vector(obj, h)
+    vec = None
+    if want_v is None:
+        for name, f in (("as_vector", lambda: obj.as_vector()), ("n_parameters", lambda: obj.n_parameters)):
+            try:
+                f()
+                ctx.fail(sig(name + ".not_refused"), "%s %d-D" % (type(obj).__name__, d))
+            except NotImplementedError:
+                pass
+    else:
+        vec = np.asarray(obj.as_vector(), dtype=float)
+        ctx.expect(obj.n_parameters == vec.shape[0], sig("n_parameters"), lambda: "%r vs %r" % (obj.n_parameters, vec.shape))
+        if isinstance(want_v, str):
+            if ctx.expect(vec.shape == (4,), sig("quaternion.shape"), lambda: repr(vec.shape)):
+                ctx.expect(close(np.linalg.norm(vec), 1.0, atol=1e-9) and vec[0] >= -1e-9,
+                           sig("quaternion.unit_canonical"), lambda: repr(vec))
+                ctx.expect(close(quat_matrix(vec), h[:3, :3], atol=1e-8), sig("quaternion.not_of_current_matrix"),
+                           lambda: "%s: quaternion %r is\n%s" % (who, vec, describe(quat_matrix(vec), h[:3, :3])))
+        else:
+            ctx.expect(vec.shape == want_v.shape and close(vec, want_v, atol=1e-12 * mag), sig("as_vector"),
+                       lambda: "%s (%s)\n%s" % (who, type(obj).__name__, describe(vec, want_v)))
+        back = obj.from_vector(vec.copy())
+        ctx.expect(close(back.h_matrix, h, atol=1e-9 * mag), sig("vector_roundtrip"), lambda: describe(back.h_matrix, h))
+        ctx.expect(np.array_equal(obj.h_matrix, h), sig("vector_roundtrip.receiver_mutated"), "")
+    # decompose
+    prod = None
+    if isinstance(obj, Affine):
+        parts = obj.decompose()
+        if isinstance(obj, (Rotation, UniformScale, NonUniformScale, Translation)):
+            ok = (len(parts) == 1 and type(parts[0]) is type(obj) and parts[0] is not obj
+                  and np.array_equal(parts[0].h_matrix, h))
+            ctx.expect(ok, sig("decompose.discrete"), lambda: repr([type(t).__name__ for t in parts]))
+        elif ctx.expect(len(parts) == 4, sig("decompose.length"), lambda: repr(len(parts))):
+            prod = np.eye(d + 1)
+            for t in parts:
+                prod = np.array(t.h_matrix, dtype=float).dot(prod)
+            ctx.expect(close(prod, h, atol=1e-9 * mag), sig("decompose.product"), lambda: describe(prod, h))
+    # axis / angle
+    aa = _axis_angle_ok(ctx, obj, h, sig, who) if isinstance(obj, Rotation) else None
+    text = str(obj)
+    ctx.expect(isinstance(text, str) and len(text) > 0, sig("str"), lambda: repr(text))
+    # ... and nothing got changed by asking
+    ctx.expect(np.array_equal(obj.h_matrix, h), sig("readout_mutated_the_object"), lambda: describe(obj.h_matrix, h))
+    if not fresh:
+        return
+    fr = _hist_fresh(obj, h)
+    if fr is None:
+        ctx.event("history: class %s has no fresh twin" % type(obj).__name__)
+        return
+    ctx.expect(np.array_equal(fr.h_matrix, h), sig("fresh.h_matrix"), lambda: describe(fr.h_matrix, h))
+    if vec is not None:
+        fv = np.asarray(fr.as_vector(), dtype=float)
+        ctx.expect(fv.shape == vec.shape and close(fv, vec, atol=1e-9), sig("fresh.as_vector"), lambda: describe(vec, fv))
+    if aa is not None:
+        faxis, fang = fr.axis_and_angle_of_rotation()
+        if aa[0] == "2d":
+            if aa[1] is not None:
+                ctx.expect(close(float(fang), aa[1], atol=1e-9), sig("fresh.axis_angle_2d"),
+                           lambda: "%s reports %r, a fresh Rotation of the same matrix %r" % (who, aa[1], float(fang)))
+        else:
+            ctx.expect((faxis is None) == (aa[1] is None), sig("fresh.axis_angle_3d.none"),
+                       lambda: "%s: None=%r, fresh: None=%r" % (who, aa[1] is None, faxis is None))
+            if faxis is not None and aa[1] is not None and aa[2]:
+                fb = rodrigues(np.asarray(faxis, dtype=float), float(fang))
+                ctx.expect(close(fb, aa[1], atol=1e-5), sig("fresh.axis_angle_3d"), lambda: describe(aa[1], fb))
+    if d == 2 or isinstance(obj, (UniformScale, NonUniformScale, Translation)):
+        # (the 3-D angle carries run-to-run round-off jitter from a random helper vector: text compared in 2-D only)
+        ctx.expect(str(fr) == text, sig("fresh.str"), lambda: "%r\nvs fresh\n%r" % (text, str(fr)))
+
+
+def _hist_target(cur, target, d):
+    """(parameter vector for cur.from_vector, matrix it denotes) built from the step's ingredients for cur's class;
+    vector None: the class documents NotImplementedError (2-D rotation / 3-D similarity)"""
+    qv = gen.build_unit_quaternion(target["q"])
+    th = math.radians(target["deg"])
+    t = np.array(target["t"], dtype=float)
+    if isinstance(cur, Rotation):
+        if d == 2:
+            return None, _h_from(rot2(th))
+        return qv.copy(), _h_from(quat_matrix(qv))
+    if isinstance(cur, UniformScale):
+        return np.array([target["s"]]), _h_from(np.eye(d) * target["s"])
+    if isinstance(cur, NonUniformScale):
+        return np.array(target["sv"]), _h_from(np.diag(target["sv"]))
+    if isinstance(cur, Translation):
+        return t.copy(), _h_from(np.eye(d), t)
+    if isinstance(cur, Similarity):
+        if d == 3:
+            return None, None
+        s_ = target["s"]
+        return (np.array([s_ * math.cos(th) - 1, s_ * math.sin(th), t[0], t[1]]), _h_from(s_ * rot2(th), t))
+    h = _h_from(gen.build_linear(d, target["lin"]), t)
+    if isinstance(cur, Affine):
+        return (h - np.eye(d + 1))[:d, :].ravel(order="F"), h
+    return h.ravel().copy(), h
+
+
+def c_history(case, ctx):
+    d = case["d"]
+    cur, ref = _hist_build(case["subject"], d)
+    ctx.event("subject=%s %dD" % (case["subject"]["kind"], d))
+    _hist_check(ctx, *_hist_build(case["subject"], d), after="construction", who="subject")  # on a twin: cur untouched
+    queried = False  # a derived query was made on the object some time before a change that took effect
+    effective = False
+    for step in case["steps"]:
+        op = step["op"]
+        if op == "set_rotation_matrix" and not isinstance(cur, Rotation):
+            op = "copy"
+        ctx.event("op=%s on %s" % (op, type(cur).__name__))
+        if step["check_before"]:
+            _hist_check(ctx, cur, ref, after="construction" if not effective else "earlier_change", who="object before " + op, fresh=False)
+        _hist_touch(cur, step["touch"])
+        queried_now = queried or step["check_before"] or bool(step["touch"])
+        before = np.array(cur.h_matrix, dtype=float)
+        orig, orig_ref = cur, ref
+        inplace = False
+        changed = True
+        other = other_ref = None
+        if op.startswith("compose"):
+            other, other_ref = _hist_build(step["other"], d)
+            _hist_touch(other, step["touch_other"])
+            o_before = np.array(other.h_matrix, dtype=float)
+            new_ref = other_ref.dot(ref) if "before" in op else ref.dot(other_ref)
+            if op.endswith("_inplace"):
+                inplace = True
+                allowed = INPLACE_WITH.get(type(cur))
+                if allowed is None:
+                    ctx.event("history: in-place composition on a class off the table")
+                    allowed = cur.composes_inplace_with
+                    allowed = allowed if isinstance(allowed, tuple) else (allowed,)
+                try:
+                    getattr(cur, op)(other)
+                    accepted = True
+                except ValueError:
+                    accepted = False
+                if isinstance(other, allowed):
+                    ctx.expect(accepted, "history.inplace_composition_refused", lambda: "%s.%s(%s)" % (
+                        type(cur).__name__, op, type(other).__name__))
+                else:
+                    ctx.expect(not accepted, "history.inplace_composition_not_refused", lambda: "%s.%s(%s)" % (
+                        type(cur).__name__, op, type(other).__name__))
+                    ctx.event("refused in-place composition")
+                if accepted:
+                    ref = new_ref
+                else:
+                    changed = False
+            else:
+                cur = getattr(cur, op)(other)
+                ref = new_ref
+                ctx.event("compose %s with %s -> %s" % (type(orig).__name__, type(other).__name__, type(cur).__name__))
+            ctx.expect(np.array_equal(other.h_matrix, o_before), "history.operand_mutated.argument." + op,
+                       lambda: describe(other.h_matrix, o_before))
+        elif op in ("from_vector", "from_vector_inplace"):
+            v, new_ref = _hist_target(cur, step["target"], d)
+            inplace = op.endswith("_inplace")
+            if v is None:
+                changed = False
+                arg = np.zeros(4 if d == 2 else 7)
+                try:
+                    with warnings.catch_warnings():
+                        warnings.simplefilter("ignore")
+                        getattr(cur, op)(arg)
+                    ctx.fail("history.from_vector.not_refused", "%s %d-D" % (type(cur).__name__, d))
+                except NotImplementedError:
+                    ctx.event("refused from_vector (not vectorizable)")
+                inplace = True  # nothing new was made
+            else:
+                arg = v.copy()
+                with warnings.catch_warnings():
+                    warnings.simplefilter("ignore")
+                    out = getattr(cur, op)(arg)
+                if not inplace:
+                    cur = out
+                ref = new_ref
+                ctx.expect(np.array_equal(arg, v), "history.from_vector.argument_mutated", lambda: describe(arg, v))
+        elif op == "set_rotation_matrix":
+            inplace = True
+            _, new_ref = _hist_target(cur, step["target"], d)
+            value = new_ref[:d, :d].copy()
+            cur.set_rotation_matrix(value)
+            ctx.expect(np.array_equal(value, new_ref[:d, :d]), "history.set_rotation_matrix.argument_mutated", "")
+            ref = new_ref
+        elif op == "set_h_matrix":
+            # deprecated and documented to raise NotImplementedError unless h_matrix_is_mutable (False on every class)
+            inplace = True
+            changed = False
+            _, new_ref = _hist_target(cur, step["target"], d)
+            with warnings.catch_warnings():
+                warnings.simplefilter("ignore")
+                mutable = cur.h_matrix_is_mutable
+                try:
+                    cur.set_h_matrix((new_ref if new_ref is not None else before).copy())
+                    if ctx.expect(mutable, "history.set_h_matrix.not_refused", type(cur).__name__) and new_ref is not None:
+                        ref, changed = new_ref, True
+                except NotImplementedError:
+                    ctx.expect(not mutable, "history.set_h_matrix.refused_though_mutable", type(cur).__name__)
+                    ctx.event("refused set_h_matrix")
+        elif op == "copy":
+            cur = cur.copy()
+            ctx.expect(cur is not orig and type(cur) is type(orig), "history.copy.identity_or_class", type(cur).__name__)
+            ctx.expect(not np.shares_memory(cur.h_matrix, orig.h_matrix), "history.copy.shares_matrix", "")
+            changed = False
+        elif op == "pseudoinverse":
+            cur = cur.pseudoinverse()
+            ref = np.linalg.inv(ref)
+        if changed:
+            effective = True
+            if queried_now:
+                ctx.event("derived query before an effective %s" % op)
+                ctx.nontrivial(True)
+        queried = queried_now
+        if not changed and inplace:
+            ctx.expect(np.array_equal(cur.h_matrix, before), "history.refused_change_altered_the_object." + op,
+                       lambda: describe(cur.h_matrix, before))
+        _hist_check(ctx, cur, ref, after=op, who="result of " + op)
+        if cur is not orig:
+            # the receiver of a non-mutating change is as it was, read-outs included
+            ctx.expect(np.array_equal(orig.h_matrix, before), "history.operand_mutated.receiver." + op,
+                       lambda: describe(orig.h_matrix, before))
+            _hist_check(ctx, orig, orig_ref, after=op + ".receiver", who="receiver of " + op, fresh=False)
+        if other is not None:
+            _hist_check(ctx, other, other_ref, after=op + ".argument", who="argument of " + op, fresh=False)
+        queried = True  # the check above made every query on cur
+    ctx.nontrivial(False)
+
+
 CLAUSES = [
     Clause("ctor", c_ctor, s_ctor, quick=2500, thorough=60000, nt_floor=0.5,
            rule="angle x constructor (2-D, x, y, z) x degrees (explicit / default) / radians x argument type "
@@ -834,4 +1346,11 @@ CLAUSES = [
                 "numbers (python ints, int64 arrays) and float32 arrays"),
     Clause("tcoords", c_tcoords, s_tcoords, quick=1000, thorough=30000, nt_floor=0.3,
            rule="image shapes 2..60 per axis, points in and around the unit square; non-trivial: non-square image"),
+    Clause("readout_history", c_history, s_history, quick=2500, thorough=60000, nt_floor=0.3,
+           rule="transform from every constructor on the path (2-D/3-D rotations by angle / axis / matrix / quaternion, "
+                "Similarity, Affine, shear, Scale factory, Translation) x 1-3 changes (compose_before/after with a "
+                "drawn transform, the in-place variants, from_vector[_inplace], set_rotation_matrix, set_h_matrix, "
+                "copy, pseudoinverse) with derived queries drawn before each change; after each change every derived "
+                "read-out must describe the current matrix and match a fresh object; non-trivial: a derived query "
+                "was made before a change that took effect"),
 ]
